@@ -62,3 +62,42 @@ Proof.
   destruct (pin (set_hc 1 s)) as [s2|e]; cbn [bind]; [|reflexivity].
   destruct (u (push_to_global s2)) as [s3|e]; cbn [bind]; reflexivity.
 Qed.
+
+(* ---- the decisions of the same functions: GuardSeq branches on the conditions generated from internal.rs
+   (Gen/EbrProtoW.v; the same table EbrProtoP.v ties to the concurrent machine Ebr.v) *)
+Require Import EbrProtoW.
+Definition nbg (l : list bool) (i : nat) : bool := nth i l false.
+
+Lemma pin_decision s :
+  pin s = if MAXC <=? gc s then Err E_OVERFLOW else
+          let s1 := set_gc (gc s + 1) s in
+          if nbg (E_pin_conds (gc s) 0 0 0) 0 then
+            let s2 := set_ann (G s) (set_pinned true s1) in
+            Ok (if prev s =? G s then s2 else set_advc 0 (set_prev (G s) s2))
+          else Ok s1.
+Proof. reflexivity. Qed.
+
+Lemma schedule_collection_decision s :
+  schedule_collection s =
+    let s1 := set_must_collect true s in
+    if nbg (E_sched_conds (collecting s1) (gc s1)) 0 then repin_without_collect s1 else s1.
+Proof. reflexivity. Qed.
+
+Lemma release_handle_decision u s :
+  release_handle_with u s =
+    let s1 := set_hc (hc s - 1) s in
+    if nbg (E_relh_conds (gc s) (hc s)) 0 then finalize_with u s1 else Ok s1.
+Proof. reflexivity. Qed.
+
+Lemma unpin_decisions ur fuel s mc :
+  unpin_lvl ur fuel s =
+    let g0 := gc s in
+    bind (if nbg (E_unpin_conds g0 (collecting s) mc 0) 0
+          then bind (coll_loop ur fuel (set_collecting true s)) (fun s' => Ok (set_collecting false s'))
+          else Ok s) (fun s1 =>
+    let s2 := set_gc (g0 - 1) s1 in
+    if nbg (E_unpin_conds g0 false mc 0) 2 then
+      let s3 := set_unpins (unpins s2 + 1) (set_ann 0 (set_pinned false s2)) in
+      if nbg (E_unpin_conds g0 false mc (hc s3)) 3 then finalize_with ur s3 else Ok s3
+    else Ok s2).
+Proof. reflexivity. Qed.
